@@ -181,7 +181,11 @@ def classify(diags, attr):
                     where = "%s:%d" % (o["f"], o["l"])
                     break
         props = set()
-        for _, p in labels:
+        kinds = {c["label"]: c.get("kind") for c in attr.clauses}
+        for l, p in labels:
+            if kinds.get(l) == "preamble" and fn is not None:
+                # a precondition of an environment function: it speaks for the properties of the CALLING function only
+                p = [x for x in p if x in fn["props"]] or list(p)
             props.update(p)
         if not labels and fn is not None:
             props.update(fn.get("primary") or fn["props"])
